@@ -938,6 +938,25 @@ def emit_lean(t):
     return "\n".join(L) + "\n"
 
 
+def emit_tsv(t):
+    """the same table for the harness (no JSON parser there): tab-separated records
+       E <enum> <string fn or ->           V <enum> <variant> <code> <printable>
+       M <enum> <rust enum> <rust variant> <c variant>     U <enum> <rust enum> <rust variant> (no C value)"""
+    L = [f"OK\t{t['ok']}"]
+    for e in t["enums"]:
+        L.append("\t".join(["E", e["name"], e["stringFns"][0] if e["stringFns"] else "-"]))
+        for v in e["variants"]:
+            if "\t" in v["printable"] or "\n" in v["printable"]:
+                raise Unsupported(f"printable name of {e['name']}::{v['name']} contains a tab/newline")
+            L.append("\t".join(["V", e["name"], v["name"], str(v["code"]), v["printable"]]))
+        for m in e["mappings"]:
+            for r in m["table"]:
+                L.append("\t".join(["M", e["name"], m["rustEnum"], r["rust"], r["c"]]))
+            for u in m["unmapped"]:
+                L.append("\t".join(["U", e["name"], m["rustEnum"], u["rust"]]))
+    return "\n".join(L) + "\n"
+
+
 def summary(t):
     ne = len(t["enums"])
     nv = sum(len(e["variants"]) for e in t["enums"])
@@ -1012,6 +1031,7 @@ def main():
     ap.add_argument("--repo", default=os.environ.get("VERIF_REPO", "/repo"))
     ap.add_argument("--out-lean", default=os.path.join(VERIF, "lean/Iox2/Gen/FfiErrors.lean"))
     ap.add_argument("--out-json", default=os.path.join(VERIF, "lean/Iox2/Gen/ffi_errors.json"))
+    ap.add_argument("--out-tsv", default=os.path.join(VERIF, "lean/Iox2/Gen/ffi_errors.tsv"))
     ap.add_argument("--quiet", action="store_true")
     a = ap.parse_args()
     try:
@@ -1021,7 +1041,7 @@ def main():
         return 2
     lean = emit_lean(t)
     js = json.dumps(t, indent=1, sort_keys=True) + "\n"
-    for path, text in ((a.out_lean, lean), (a.out_json, js)):
+    for path, text in ((a.out_lean, lean), (a.out_json, js), (a.out_tsv, emit_tsv(t))):
         os.makedirs(os.path.dirname(path), exist_ok=True)
         old = open(path).read() if os.path.exists(path) else None
         if old != text:            # keep mtime when nothing changed: no needless Lean rebuild
